@@ -27,12 +27,17 @@ func headerBytes(version uint32, prev, root [32]byte, ts, bits, nonce uint32) []
 // genBlock builds a block of ntx generated transactions (first one coinbase-like) and returns the btcd message,
 // the generated transactions and the reference block hash / merkle root.
 func genBlock(r *mon.Rand, ntx int, prev [32]byte, pool *[][]byte, maxIn, maxOut int) (*wire.MsgBlock, []*gTx, [32]byte, [32]byte) {
+	return genBlockWith(r, ntx, prev, pool, maxIn, maxOut, genOutputScript)
+}
+
+// genBlockWith is genBlock with a chosen output-script generator.
+func genBlockWith(r *mon.Rand, ntx int, prev [32]byte, pool *[][]byte, maxIn, maxOut int, outGen func(*mon.Rand, *[][]byte) gScript) (*wire.MsgBlock, []*gTx, [32]byte, [32]byte) {
 	var txs []*gTx
 	var txids [][32]byte
 	for i := 0; i < ntx; i++ {
 		var t *gTx
 		if i == 0 {
-			t = genTx(r, 1, 1+r.Intn(maxOut), pool, &prevRef{index: 0xffffffff})
+			t = genTxWith(r, 1, 1+r.Intn(maxOut), pool, &prevRef{index: 0xffffffff}, outGen)
 		} else {
 			var spend *prevRef
 			if r.Chance(1, 4) {
@@ -41,7 +46,7 @@ func genBlock(r *mon.Rand, ntx int, prev [32]byte, pool *[][]byte, maxIn, maxOut
 					spend = &prevRef{txid: txs[j].view.TxID, index: uint32(r.Intn(len(txs[j].outs)))}
 				}
 			}
-			t = genTx(r, 1+r.Intn(maxIn), r.Intn(maxOut+1), pool, spend)
+			t = genTxWith(r, 1+r.Intn(maxIn), r.Intn(maxOut+1), pool, spend, outGen)
 		}
 		txs = append(txs, t)
 		txids = append(txids, t.view.TxID)
@@ -77,7 +82,18 @@ func famBasic(c *mon.Ctx) func(k *mon.Case) {
 			case 1:
 				ntx = 30 + r.Intn(int(c.N(60, 400)))
 			}
-			blk, txs, refHash, _ := genBlock(r, ntx, prevBlock, &pool, 3, 4)
+			// output scripts and spent scripts: the usual templates mixed with hostile byte strings (unparseable, oversized,
+			// one-byte, OP_RETURN look-alikes): BIP158 only looks at emptiness and at the first byte
+			hostileRate := []int{0, 1, 1, 2, 3}[r.Intn(5)] // out of 4
+			mixed := func(r *mon.Rand, pool *[][]byte) gScript {
+				if r.Intn(4) < hostileRate {
+					h := genHostileScript(r)
+					k.Count("basic.script."+h.kind, 1)
+					return h
+				}
+				return genOutputScript(r, pool)
+			}
+			blk, txs, refHash, _ := genBlockWith(r, ntx, prevBlock, &pool, 3, 4, mixed)
 			// previous output scripts of every non-coinbase input: generated like output scripts (incl. empty and
 			// OP_RETURN-leading ones), sometimes equal to an output script of the block
 			var outs, prevs [][]byte
@@ -94,7 +110,7 @@ func famBasic(c *mon.Ctx) func(k *mon.Case) {
 					if len(outs) > 0 && r.Chance(1, 5) {
 						prevs = append(prevs, outs[r.Intn(len(outs))])
 					} else {
-						prevs = append(prevs, genOutputScript(r, &pool).script)
+						prevs = append(prevs, mixed(r, &pool).script)
 					}
 				}
 			}
